@@ -4,6 +4,4 @@
 //@pin file=lrpar/src/lib/parser.rs fn=parse_generictree sha=cc738ef01e0b6f46
 //@pin file=lrpar/src/lib/parser.rs fn=parse_actions nth=1 sha=2524b76017886613
 //@pin file=lrpar/src/lib/parser.rs fn=parse_map nth=1 sha=3ca8f632acbd1829
-//@pin file=lrpar/src/lib/parser.rs fn=next_lexeme sha=8aa35f57798e4927
-//@pin file=lrpar/src/lib/parser.rs fn=next_tidx sha=6bc450bf47b1fec0
 //@use prelude/tail.rs
